@@ -83,6 +83,12 @@ func (m MsgPlaceDebtBidRequest) ValidateBasic() error {
 	if err != nil {
 		return sdkerrors.Wrap(sdkerrors.ErrInvalidAddress, "--from address cannot be empty or invalid")
 	}
+	if !m.Bid.IsValid() || !m.Bid.IsPositive() {
+		return sdkerrors.Wrapf(sdkerrors.ErrInvalidCoins, "bid amount %s", m.Bid)
+	}
+	if !m.ExpectedUserToken.IsValid() {
+		return sdkerrors.Wrapf(sdkerrors.ErrInvalidCoins, "expected user token %s", m.ExpectedUserToken)
+	}
 	return nil
 }
 
